@@ -43,7 +43,7 @@ func spec(r *eng.Run) eng.SeqSpec {
 	return eng.SeqSpec{
 		Configs:    configs(r),
 		New:        func(c string) eng.Sys { return newSys(r, c) },
-		Depth:      eng.Pick(r, 6, 8),
+		Depth:      eng.Pick(r, 6, 7),
 		NonTrivial: func(cfg string, p []string) bool { return len(p) >= 2 },
 	}
 }
